@@ -11,3 +11,6 @@ open Gossamer.C19
 #print axioms C19_dup_weights_summed
 #print axioms C19_bracket
 #print axioms C19_early_return_dead
+#print axioms C19_wrapper_sound
+#print axioms C19_set_lookup
+#print axioms C19_importer_sound
